@@ -320,3 +320,99 @@ def validate(inst, path=""):
                 if p:
                     probs.append(f"{path}/{cls.__name__}[{i}]: {p}")
     return probs
+
+
+# ---------------------------------------------------------------------------------------------
+# class-specific rules of the OFX specification that the classes enforce in validate_args() - written down here from the
+# specification text quoted in those classes (independent of their code), for term-level validity
+# ---------------------------------------------------------------------------------------------
+def _present(kw, name):
+    return kw.get(name) is not None
+
+
+def custom_problems(name, kw, members):
+    """problems of the (class name, keyword children, list members) combination under the class-specific rules"""
+    kinds = [_mname(m) for m in members]
+    present = [k for k, v in kw.items() if v is not None]
+    probs = []
+    at_least_one = {"MSGSETCORE", "MFACHALLENGERS", "CONTRIBINFO", "MSGSETLIST", "TAX1099MSGSRQV1", "TAX1099MSGSRSV1", "TAX1099MSGSETV1", "ACCTINFO"}
+    if name in at_least_one and not members:
+        probs.append(f"{name}: one or more members required")
+    if name == "TAX1099RS" and not any(k.startswith("TAX1099") for k in kinds):
+        probs.append("TAX1099RS: at least one tax form required")
+    if name == "ACCTINFO":
+        for k in sorted(set(kinds)):
+            if kinds.count(k) > 1:
+                probs.append(f"ACCTINFO: more than one {k}")
+    if name == "OFX":
+        sides = {k[-4:-2] for k in present}
+        if len(sides) > 1:
+            probs.append("OFX: request and response message sets mixed")
+    if name == "SONRQ":
+        idpw = _present(kw, "userid") and _present(kw, "userpass")
+        anyidpw = _present(kw, "userid") or _present(kw, "userpass")
+        key = _present(kw, "userkey")
+        if not (idpw or key) or (anyidpw and key):
+            probs.append("SONRQ: either USERID and USERPASS, or USERKEY, not both")
+    if name == "CONTRIBSECURITY":
+        src = [k for k in present if k != "secid"]
+        if not src:
+            probs.append("CONTRIBSECURITY: at least one source required")
+        if len({k[-3:] for k in src}) > 1:
+            probs.append("CONTRIBSECURITY: percentages and amounts mixed")
+    if name == "EXTDPMT" and not _present(kw, "extdpmtdsc") and "EXTDPMTINV" not in kinds:
+        probs.append("EXTDPMT: EXTDPMTDSC or EXTDPMTINV required")
+    if name == "EXTDPAYEE" and _present(kw, "payeeid") and not (_present(kw, "idscope") and _present(kw, "name")):
+        probs.append("EXTDPAYEE: PAYEEID requires IDSCOPE and NAME")
+    if name == "TAX1099MISC_V100" and _present(kw, "sttaxwh") and not _present(kw, "payerstate"):
+        probs.append("TAX1099MISC_V100: PAYERSTATE required with STTAXWH")
+    if name == "TAX1099R_V100" and not _present(kw, "irasepsimp") and any(_present(kw, k) for k in ("grossdist", "taxamt", "fedtaxwh", "sttaxwh", "lcltaxwh")):
+        probs.append("TAX1099R_V100: IRASEPSIMP required with the amounts")
+    return probs
+
+
+CUSTOM_CLASSES = ["MSGSETCORE", "MFACHALLENGERS", "CONTRIBINFO", "MSGSETLIST", "TAX1099MSGSRQV1", "TAX1099MSGSRSV1", "TAX1099MSGSETV1", "ACCTINFO", "TAX1099RS", "OFX", "SONRQ",
+                  "CONTRIBSECURITY", "EXTDPMT", "EXTDPAYEE", "TAX1099R_V100", "TAX1099MISC_V100"]
+
+
+def term_problems(term, path="", custom=True):
+    """validity of a model term (class name, {child: value or term}, [members]) under everything the class declares
+    (presence, groups, member kinds) and the class-specific rules; element values are taken as valid"""
+    name, kw, members = term
+    cls = getattr(__import__("ofxtools.models", fromlist=["x"]), name)
+    chs = children(cls)
+    cm = {c.name: c for c in chs}
+    probs = []
+    for k, v in kw.items():
+        if k not in cm or cm[k].kind not in ("elem", "sub"):
+            probs.append(f"{path}/{name}.{k}: not a declared single child")
+        elif v is not None and cm[k].kind == "sub":
+            if not _isterm(v) or v[0] != cm[k].target.__name__:
+                probs.append(f"{path}/{name}.{k}: wrong aggregate")
+            else:
+                probs += term_problems(v, f"{path}/{name}", custom)
+    for c in chs:
+        if c.kind in ("elem", "sub") and c.required and kw.get(c.name) is None:
+            probs.append(f"{path}/{name}.{c.name}: required child missing")
+    opt, req = declared_groups(cls)
+    for g in opt:
+        n = sum(1 for m in g if m in cm and cm[m].kind in ("elem", "sub") and kw.get(m) is not None)
+        if n > 1:
+            probs.append(f"{path}/{name}: {n} members of at-most-one group {g}")
+    for g in req:
+        n = sum(1 for m in g if m in cm and cm[m].kind in ("elem", "sub") and kw.get(m) is not None)
+        if n != 1:
+            probs.append(f"{path}/{name}: {n} members of exactly-one group {g}")
+    lkinds = {c.target.__name__ for c in chs if c.kind == "lagg"}
+    has_lelem = any(c.kind == "lelem" for c in chs)
+    for i, m in enumerate(members):
+        if _isterm(m):
+            if m[0] not in lkinds:
+                probs.append(f"{path}/{name}[{i}]: {m[0]} is not a permitted list member")
+            else:
+                probs += term_problems(m, f"{path}/{name}[{i}]", custom)
+        elif not has_lelem:
+            probs.append(f"{path}/{name}[{i}]: element member in a class without repeated elements")
+    if custom:
+        probs += [f"{path}/{p}" for p in custom_problems(name, kw, members)]
+    return probs
